@@ -12,7 +12,8 @@ LEAN_MODULES = ["Pff.Props.C05", "Pff.Props.Csv"]
 PROP_MODULE = "Pff.Props.C05"
 THEOREMS = ["Pff.Rfigc.C05_rule", "Pff.Rfigc.C05_clean", "Pff.Rfigc.C05_exact", "Pff.Rfigc.C05_single",
             "Pff.Csv.C05_csv_roundtrip",
-            "Pff.Csv.C05_csv_cr_witness"]
+            "Pff.Csv.C05_csv_cr_witness",
+            "Pff.Csv.C05_db_roundtrip"]
 MODELLED = [("pyFileFixity/rfigc.py", "main"), ("pyFileFixity/rfigc.py", "generate_hashes"), ("pyFileFixity/lib/_compat.py", "_csv_writer")]
 TRUSTED_BASE = [
     "Lean 4.33.0 kernel; axioms per theorem under coverage.theorems (subset of propext, Classical.choice, Quot.sound)",
